@@ -163,6 +163,8 @@ def mh_predicate(mh, v, siblings: Optional[dict] = None) -> Optional[str]:
                 and mh[1] <= v[1] - v[0] <= mh[2]
                 and v[1] <= mh[3]
             )
+        elif k == "Pass":
+            ok = True
         elif k == "Dep":
             names = mh[1].split(",")
             if siblings is None or any(n not in siblings for n in names):
@@ -312,6 +314,8 @@ def _mh_values(mh, base_t, enum_inner, budget, siblings):
             for s in range(0, mh[3] - ln + 1):
                 out.append((("()", ("int", s), ("int", s + ln)), 0))
         return out
+    if k == "Pass":
+        return enum_inner(base_t, budget)
     if k == "Dep":
         names = mh[1].split(",")
         vals = [siblings[n][1] if siblings[n][0] in ("int", "str", "bool", "float") else None for n in names]
